@@ -28,6 +28,9 @@ def generate(rng, tier):
             for Y in range(3):
                 for lorch in (False, True):
                     c = F.gen_named_case(rng, "quick", 0, X, Y, lorch=lorch, omitted=True, channel=0, positive=(rep % 4 != 3))
+                    if rep % 4 == 1 and (X + Y) % 3 == 0:     # r grid starting exactly at 0: the term must vanish there
+                        c["xout"] = [0.0] + [abs(v) + 0.01 for v in c["xout"]]
+                        c["desc"]["r0_on_grid"] = True
                     if rep % 4 == 3:  # Qmin = 0 and r grid starting at 0: the term must vanish / be 0 at r = 0
                         if rep % 8 == 3:
                             c["xin"] = [v - c["xin"][0] for v in c["xin"]]
@@ -40,7 +43,7 @@ def generate(rng, tier):
                         c["xout"] = [dr * (i + 1) for i in range(len(c["xout"]))]
                         c["desc"]["fortran"] = True
                     if rep % 4 == 1:  # an integer-valued (and integer-typed) r grid
-                        c["xout"] = [float(i + 1) for i in range(len(c["xout"]))]
+                        c["xout"] = [float(i + (0 if c["desc"].get("r0_on_grid") else 1)) for i in range(len(c["xout"]))]
                         c["int_dtype"] = [False, False, True]
                         c["desc"]["int_r_grid"] = True
                         c["desc"].pop("fortran", None)
@@ -54,7 +57,12 @@ def generate(rng, tier):
     return cases
 
 
-run_impl = F.run_named
+def run_impl(pystog, case):
+    # uninitialised buffers are handed out pre-filled: a slot that is read without having been written shows up
+    with F.poisoned_empty(7.0):
+        return F.run_named(pystog, case)
+
+
 to_coq = F.named_to_coq
 
 
@@ -88,8 +96,9 @@ def oracle(pystog, case, res):
     if "exception" in res:
         return "raised %s: %s" % (res["exception"], res["message"])
     m = case["mat"]
-    _, y_on, _ = F.call_named(pystog, case)
-    _, y_off, _ = F.call_named(pystog, case, omitted=False)
+    with F.poisoned_empty(7.0):
+        _, y_on, _ = F.call_named(pystog, case)
+        _, y_off, _ = F.call_named(pystog, case, omitted=False)
     r = np.array(case["xout"], float)
     # back to G(r) (affine, exact enough): difference of outputs -> difference in G
     Yn = L.GN[case["Y"]]
